@@ -6,6 +6,23 @@ VERIF = os.path.dirname(HERE)
 REPO = os.environ.get('VERIF_REPO', '/repo')
 
 def run(timeout=1500):
+    # the harness only reaches src/convert/*.rs (image_placement and the types it uses): result cached on their content
+    import hashlib, glob
+    h = hashlib.sha256()
+    for f in sorted(glob.glob(os.path.join(REPO, 'src', 'convert', '*.rs'))) + [os.path.join(VERIF, 'kani', 'c18_harness.rs'), os.path.join(VERIF, 'kani', 'c18_replay.rs')]:
+        h.update(open(f, 'rb').read())
+    cpath = os.path.join(VERIF, '.cache', 'kani-c18-%s.json' % h.hexdigest()[:20])
+    if os.path.exists(cpath) and not os.environ.get('VERIF_NOCACHE'):
+        r = json.load(open(cpath)); r['cached'] = True
+        return r
+    r = _run(timeout)
+    if r.get('summary'):
+        os.makedirs(os.path.dirname(cpath), exist_ok=True)
+        json.dump(r, open(cpath, 'w'))
+    return r
+
+
+def _run(timeout=1500):
     scratch = tempfile.mkdtemp(prefix='verif_kani_c18_')
     t0 = time.time()
     try:
